@@ -55,23 +55,16 @@ Example ex_deleteid3 : flac_wf ex_file_v1 = true /\
   | Raise _ => ([], [], -2) end = ([], [0; 2; 4; 1], 136).
 Proof. vm_compute. split; reflexivity. Qed.
 
-(* deleteid3 on a file with fewer than 128 bytes of audio: the ID3v1 test looks at the last 128 bytes of the FILE, which
-   then lie in the metadata region; a value with "TAG" at that spot gets the comment block cut off (real behaviour of
-   FLAC.save(deleteid3=True), reproduced on /repo: the 206-byte result is truncated to 78 bytes and no longer loads) *)
+(* regression (fixed in /repo by "fix: FLAC save(deleteid3=True) could truncate the metadata it just wrote"): on a file with
+   fewer than 128 bytes of audio the ID3v1 test used to look at the last 128 bytes of the FILE, i.e. into the metadata
+   blocks; a value with "TAG" at that spot got the comment block cut off (192-byte result truncated to 64 bytes, unloadable).
+   The trailer is now only looked for behind the blocks just written: the same input stays whole and well-formed. *)
 Definition ex_short : list Z := flac_build None [(0, ex_streaminfo)] (ex_audio ++ zeros 4).
 Definition ex_tagvalue : vc := mkVC [] [([116; 105; 116; 108; 101], [84; 65; 71] ++ repeat 120 111)].
-Example ex_deleteid3_short_refuted :
+Example ex_deleteid3_short_regression :
   flac_wf ex_short = true /\ vc_valid ex_tagvalue = true /\
-  (zlen (get [] (flac_save ex_short ex_tagvalue (mkOpts (Some (cb_const 0)) false))) = 192 /\
-   flac_wf (get [] (flac_save ex_short ex_tagvalue (mkOpts (Some (cb_const 0)) false))) = true) /\
-  (is_ok (flac_save ex_short ex_tagvalue (mkOpts (Some (cb_const 0)) true)) = true /\
-   zlen (get [] (flac_save ex_short ex_tagvalue (mkOpts (Some (cb_const 0)) true))) = 64 /\
-   flac_wf (get [] (flac_save ex_short ex_tagvalue (mkOpts (Some (cb_const 0)) true))) = false).
+  flac_save ex_short ex_tagvalue (mkOpts (Some (cb_const 0)) true) = flac_save ex_short ex_tagvalue (mkOpts (Some (cb_const 0)) false) /\
+  zlen (get [] (flac_save ex_short ex_tagvalue (mkOpts (Some (cb_const 0)) true))) = 192 /\
+  flac_wf (get [] (flac_save ex_short ex_tagvalue (mkOpts (Some (cb_const 0)) true))) = true /\
+  flac_load (get [] (flac_save ex_short ex_tagvalue (mkOpts (Some (cb_const 0)) true))) = Ok (Some ex_tagvalue).
 Proof. vm_compute. repeat split; reflexivity. Qed.
-Lemma deleteid3_short_refuted : exists f t o f', flac_wf f = true /\ vc_valid t = true /\ o_deleteid3 o = true /\
-  flac_save f t o = Ok f' /\ flac_wf f' = false /\ flac_load f' = Raise EMutagen.
-Proof.
-  exists ex_short, ex_tagvalue, (mkOpts (Some (cb_const 0)) true),
-         (get [] (flac_save ex_short ex_tagvalue (mkOpts (Some (cb_const 0)) true))).
-  vm_compute. repeat split; reflexivity.
-Qed.
